@@ -1,7 +1,7 @@
 \* edge emission, copy/read-only focus (quick)
 CONSTANTS N = 4  Par = {"p", "q"}  NVal = 2  NGrid = 2  MaxDepth = 1  MaxLevel = 4
           GridSlot = "stack"  PickleSerial = "fresh"  DbSerial = "max"
-CONSTANTS Keeps <- KeepsTwo  Acts <- ActsCopy  Parent0 <- ParentD  Cls0 <- ClsD
+CONSTANTS Keeps <- KeepsNone  Acts <- ActsCopy  Parent0 <- ParentD  Cls0 <- ClsD
           ParOf <- McParOf  GridCls <- McGridCls  MatCls <- McMatCls
           DbCls <- McDbCls  CopyCls <- McAllCls  CallsOf <- McCallsOf
 ACTION_CONSTRAINT Emit
